@@ -33,13 +33,13 @@ def main():
     demo_cmd = f"{PY} seed/{demo}" if demo == "demo.py" else f"{PY} -m pytest -q -p no:cacheprovider seed/{demo}"
     out = {"name": name}
     # make sure the worktree has exactly the patch applied
-    sh("git checkout -- src", cwd=wt)
+    sh("git reset -q && git checkout -- src && git clean -fdq src", cwd=wt)
     rc, o = sh("git apply seed/patch.diff", cwd=wt)
     if rc != 0:
         print("patch does not apply:", o)
         return 2
     rc_with, o_with = sh(demo_cmd, cwd=wt, env=env, timeout=300)
-    sh("git checkout -- src", cwd=wt)
+    sh("git reset -q && git checkout -- src && git clean -fdq src", cwd=wt)
     rc_without, o_without = sh(demo_cmd, cwd=wt, env=env, timeout=300)
     sh("git apply seed/patch.diff", cwd=wt)
     out["demo_with_change_exit"] = rc_with
